@@ -108,6 +108,8 @@ type doc struct {
 	// the last statement explicitly matches every trailing elided token: afterwards the caller's
 	// lexer must be at EOF in raw terms too
 	stmtsRawEOF bool
+	// the document makes user code return a plain (non-participle) error
+	foreignErr bool
 }
 
 func flatDoc(name, prefix, unit, suffix string) doc {
